@@ -738,6 +738,57 @@ Module WitnessRekey.
   Qed.
 End WitnessRekey.
 
+(* ====================================================================== *)
+(* 7. subroutine_free cannot simply be dropped for rekey-to either           *)
+(* ====================================================================== *)
+(* GroupSem4.FeeSubRefuted with the fee bound replaced by the rekey check (the shape of known finding D4):
+       txn GroupIndex; int 0; ==; assert; callsub S; int 1; return
+       S: txn Sender; global CreatorAddress; ==; bnz ret; int 1; return
+       ret: gtxn 0 RekeyTo; global ZeroAddress; ==; assert; retsub
+   The entry block is validated for its only possible index through the return point; the approving exit inside S is
+   not.  Group mode reports the transaction (rightly: the contract approves a rekeying transaction at index 0), the
+   single-contract detector reports no path. *)
+Module RekeySubRefuted.
+  Definition linesS : list string :=
+    ["#pragma version 6"; "txn GroupIndex"; "int 0"; "=="; "assert"; "callsub S"; "int 1"; "return";
+     "S:"; "txn Sender"; "global CreatorAddress"; "=="; "bnz ret"; "int 1"; "return";
+     "ret:"; "gtxn 0 RekeyTo"; "global ZeroAddress"; "=="; "assert"; "retsub"].
+  Definition pS : prog := Eval vm_compute in Witness.prog_of linesS.
+  Definition tS : teal := Eval vm_compute in Witness.teal_of pS.
+  Definition fS : func := whole_function tS.
+  Definition rS : fn_result := Eval vm_compute in Witness.res_of fS.
+  Lemma parsedS :
+    parse_program (unlines linesS) = Ok pS /\ parse_teal pS = Ok tS /\ struct_okb tS = true /\
+    subroutine_freeb fS = false /\ run_all fS 100 = Done rS.
+  Proof. repeat split; vm_compute; reflexivity. Qed.
+  Example validatedS :
+    map (fun b => (b_idx b, validated_in_block rS checks_rekey_to None (b_idx b))) (fn_blocks fS) =
+    [(0, true); (1, true); (2, false); (4, true); (3, false)].
+  Proof. vm_compute. reflexivity. Qed.
+  Example differS :
+    run_detector fS rS 100 "rekey-to" checks_rekey_to = Done [] /\
+    txn_vulnerable [(fS, rS)] checks_rekey_to "STATELESS" None [Witness.TL] Witness.TL = true.
+  Proof. split; vm_compute; reflexivity. Qed.
+End RekeySubRefuted.
+
+Theorem single_group_eq_contract_rekey_subroutine_refuted :
+  ~ (forall funcs dtype vtypes t k p tl r fuelr fuel ps,
+       parse_teal p = Ok tl -> struct_ok tl -> graph_wf (whole_function tl) = true ->
+       single_contract t k -> nth_error funcs k = Some (whole_function tl, r) -> relative_accessors [t] t = [] ->
+       eligible dtype vtypes t -> g_abs t = None ->
+       run_all (whole_function tl) fuelr = Done r ->
+       run_detector (whole_function tl) r fuel "rekey-to" checks_rekey_to = Done ps ->
+       (txn_vulnerable funcs checks_rekey_to dtype vtypes [t] t = true <-> ps <> [])).
+Proof.
+  intros H. destruct RekeySubRefuted.parsedS as (_ & Hp & Hok & _ & Hrun).
+  pose proof (struct_okb_sound _ Hok) as Hok'.
+  destruct (H [(RekeySubRefuted.fS, RekeySubRefuted.rS)] "STATELESS" None Witness.TL 0 RekeySubRefuted.pS
+              RekeySubRefuted.tS RekeySubRefuted.rS 100 100 [] Hp Hok' (graph_wf_whole_function _ _ Hp Hok')
+              (or_introl (conj eq_refl eq_refl)) eq_refl eq_refl (eligible_stateless Witness.TL eq_refl) eq_refl Hrun
+              (proj1 RekeySubRefuted.differS)) as [H1 _].
+  exact (H1 (proj2 RekeySubRefuted.differS) eq_refl).
+Qed.
+
 Print Assumptions no_prime_point_on_raw_sets.
 Print Assumptions solve_any_strict.
 Print Assumptions solve_any_iff_live.
@@ -754,3 +805,4 @@ Print Assumptions run_all_rekey_wf.
 Print Assumptions WitnessRekey.rekey_eq_on_A.
 Print Assumptions WitnessRekey.rekey_eq_on_B.
 Print Assumptions WitnessRekey.rekey_path_on_A.
+Print Assumptions single_group_eq_contract_rekey_subroutine_refuted.
